@@ -257,6 +257,12 @@ PROPS["C15"] = {
           "same", bound="3 arbitrary u16 sequence numbers", module=RM, timeout=600),
         K("NACK set preserved (4 seqs)", "c15_nack_set_preserved_4", "thorough", "bounded", ["pack_nack_pairs"],
           "same", bound="4 arbitrary u16 sequence numbers", module=RM, timeout=1200),
+        K("parse_nack_body: BLP = 0x8000 (PID+16)", "c15_parse_nack_blp_top_bit", "quick", "bounded", ["parse_nack_body"],
+          "lost_packets == [PID, PID+16] for every PID (wrapping); SSRCs recovered", bound="body = 8 + one FCI, BLP literal 0x8000, rest symbolic", module=RM, timeout=600),
+        K("parse_nack_body: BLP = 0xFFFF", "c15_parse_nack_blp_all_bits", "quick", "bounded", ["parse_nack_body"],
+          "lost_packets == [PID, PID+1, .., PID+16] in order for every PID (wrapping)", bound="BLP literal 0xFFFF", module=RM, timeout=600),
+        K("parse_nack_body: BLP = 0x0001", "c15_parse_nack_blp_low_bit", "quick", "bounded", ["parse_nack_body"],
+          "lost_packets == [PID, PID+1]", bound="BLP literal 0x0001", module=RM, timeout=600),
         K("write_rtcp_packet framing (5 B)", "c15_write_rtcp_packet_5", "quick", "bounded", ["write_rtcp_packet"],
           "V=2, 5-bit count, body zero-padded to 32 bits, length == words-1", bound="body 5 bytes", module=RM),
         K("write_rtcp_packet framing (8 B)", "c15_write_rtcp_packet_8", "quick", "bounded", ["write_rtcp_packet"], "same", bound="body 8 bytes", module=RM),
